@@ -206,6 +206,8 @@ def vkey(call, rec, extra=""):
         k += ":all-wires"
     if rec["py"]:
         k += ":" + rec["py"]
+    if rec["src"] == "eig" and rec["kind"] == "counts" and len({tuple(q) for q in rec["ev"]}) < len(rec["ev"]):
+        k += ":repeated-eigenvalues"
     if rec["ao"]:
         k += ":all_outcomes"
     return k + (":" + extra if extra else "")
@@ -402,12 +404,13 @@ def run(tier, seed):
     quick = tier == "quick"
     rng = random.Random(seed)
     max_w, max_s = (3, 4) if quick else (3, 5)
-    stride, big = (8, 12) if quick else (2, 15)
+    stride, big, stride2, big2 = (8, 9, 32, 12) if quick else (2, 12, 4, 15)
     mps = [mp_list(nw, random.Random(seed * 1000 + nw)) for nw in range(1, max_w + 1)]
     t_start = time.time()
     wd = lib.workdir(PID, "gen")
     (wd / "mps.json").write_text(json.dumps(mps))
-    g = lib.run_tlc("FromSamplesGen", lib.cfg(constants={"MaxW": max_w, "MaxS": max_s, "Stride": stride, "BigBits": big},
+    g = lib.run_tlc("FromSamplesGen", lib.cfg(constants={"MaxW": max_w, "MaxS": max_s, "Stride": stride, "BigBits": big, "Stride2": stride2,
+                                                         "BigBits2": big2},
                                               invariants=["SpecLaws"]), wd, env={"MPS_FILE": str(wd / "mps.json")}, timeout=3000)
     if g.invariant_violated:
         raise lib.MachineryError(f"FromSamples.tla violates its own law {g.invariant_violated} (oracle error)\n" + g.out[-2000:])
@@ -434,10 +437,10 @@ def run(tier, seed):
         nw, X, C = case["nw"], case["S"], case["C"]
         arr = np.array(X, dtype=np.int64)
         order = LABELS[:nw]
-        code = hash((nw, tuple(map(tuple, X))))
-        for k, exp in enumerate(case["r"]):
-            if exp == "-":
-                continue
+        code = int("".join(str(b) for row in X for b in row), 2) + 7 * nw + len(X)
+        results = case["r"]
+        results = enumerate(results) if isinstance(results, list) else sorted((int(a) - 1, b) for a, b in results.items())
+        for k, exp in results:
             rec, mp = mps[nw - 1][k], built[nw - 1][k]
             evals += 1
             by_kind[rec["kind"]] = by_kind.get(rec["kind"], 0) + 1
@@ -466,7 +469,7 @@ def run(tier, seed):
                                 (str(Fraction(*exp)) if rec["kind"] in ("expval", "var") else exp)})
             # process_counts on the dictionary of counts TLC printed (a third of the pairs; lists of mid-circuit measurements are
             # not sent there: process_counts keys them by integer, a representation the statement does not fix)
-            if (k + code) % 3 == 0 and not (rec["src"] == "mvlist" and rec["kind"] == "counts"):
+            if (k + code) % 3 == 0 and not (rec["src"] == "mvlist" and rec["kind"] in ("counts", "sample")):
                 d = counts_dict(C, X, nw, (k + code) % 9 // 3)
                 n_counts_calls += 1
                 rp = dict(rp, call="process_counts", counts=d)
@@ -599,7 +602,7 @@ def run(tier, seed):
     records += neg
     wd2 = lib.workdir(PID, "trace")
     (wd2 / "traces.json").write_text(json.dumps(records))
-    r = lib.run_tlc("Trace_FromSamples", lib.cfg(init="TInit", next_="TNext", constants={"NTRACES": len(records)}), wd2,
+    r = lib.run_tlc("Trace_FromSamples", lib.cfg(init="TInit", next_="TNext", constants={"NCHUNKS": 16}), wd2,
                     env={"TRACE_FILE": str(wd2 / "traces.json")}, timeout=3000)
     lib.require_ok(r, "Trace_FromSamples")
     verd = {t[1] - 1: t[2] for t in r.tuples if t[0] == "V"}
@@ -632,7 +635,7 @@ def run(tier, seed):
            "traces_validated_against_impl": n_real, "evaluations": evals + n_counts_calls + n_real,
            "distinct_nontrivial": len(nontriv),
            "rule": f"replay: every sample array of <= {max_s} shots x <= {max_w} wires ({n_arrays} arrays) x the measurement-process list "
-                   f"(arrays of >= {big} bits get every {stride}th process); non-trivial = distinct (array, measurement process) pair whose "
+                   f"(arrays of >= {big} / >= {big2} bits get every {stride}th / {stride2}th process, rotating with the array); non-trivial = distinct (array, measurement process) pair whose "
                    "shots take at least two different outcomes (probs / counts / var / sample; expval pairs are not counted)",
            "samples": samples, "exhaustive": True,
            "model": {"module": "FromSamples / FromSamplesGen", "invariants": ["SpecLaws"], "states": g.distinct, "arrays": n_arrays},
@@ -654,4 +657,4 @@ def run(tier, seed):
         "order is the computational-basis order of the observable's wires",
         "variance is the population variance (numpy.var), i.e. the mean squared deviation of the per-shot values",
         "with bin_size either partition of the shot range into bins (consecutive or strided) is accepted; batch + bin_size only for probs",
-        "counts of a LIST of mid-circuit measurements are not sent through process_counts (integer keys there, bit strings in process_samples)"])
+        "counts / samples of a LIST of mid-circuit measurements are not sent through process_counts (outcomes are integers there, bit strings in process_samples)"])
